@@ -181,6 +181,45 @@ def tv_part(ctx: vlib.Ctx, name: str, want, n: int):
         ctx.hist("case_kinds", "tv-" + c["kind"] + ":" + c["out"][0])
 
 
+def omit_part(ctx: vlib.Ctx):
+    """directed, deterministic: the key-dropping options that are lossless by design (omit_default, omit_none with None defaults) on Optional
+    fields whose default is NOT None -- an explicit None must survive the round trip (it is not the default, so it is written and read back)"""
+    from harness import gen
+    combos = [("Optional[int]", "5", ["None", "5", "0"]), ("Optional[str]", "'x'", ["None", "'x'", "''"]),
+              ("Optional[List[int]]", "field(default_factory=lambda: [1])", ["None", "[1]", "[]"]),
+              ("Optional[date]", "date(2020, 1, 2)", ["None", "date(2020, 1, 2)", "date(1999, 12, 31)"]),
+              ("Optional[int]", "None", ["None", "3"])]
+    for opts in ("omit_default = True", "omit_default = True\n        omit_none = True", "omit_none = True"):
+        for ann, dflt, vals in combos:
+            if "omit_none" in opts and dflt != "None" and "omit_default" not in opts:
+                continue            # omit_none alone with a non-None default discards an explicit None on purpose
+            if "omit_none" in opts and "omit_default" in opts and dflt != "None":
+                continue
+            src = ("from dataclasses import dataclass, field\nfrom datetime import date\nfrom typing import List, Optional\n"
+                   "from mashumaro import DataClassDictMixin\nfrom mashumaro.config import BaseConfig\n"
+                   f"@dataclass\nclass O(DataClassDictMixin):\n    a: int\n    x: {ann} = {dflt}\n    class Config(BaseConfig):\n        {opts}\n")
+            try:
+                ns = gen.build_module(src)
+            except Exception as e:
+                ctx.fail(f"omit scenario cannot be built: {type(e).__name__}: {e}", {"entry": "codec_build", "source": src, "type": "O", "expected": "ok"}, {"kind": "codec-build"})
+                continue
+            for vs in vals:
+                vsrc = f"O(1, {vs})"
+                v = eval(vsrc, dict(ns))
+                ctx.count(("omit", opts, ann, dflt, vs))
+                try:
+                    back = type(v).from_dict(v.to_dict())
+                    ok = back == v
+                    obs = "ok:" + gen.py_src(back)
+                except Exception as e:
+                    ok = False
+                    obs = f"exc:{type(e).__name__}"
+                if not ok:
+                    ctx.fail(f"O(a: int, x: {ann} = {dflt}) with {opts.split()[0]}: mixin_roundtrip of {vsrc} gives {obs[:200]}",
+                             {"entry": "mixin_roundtrip", "source": src, "type": "O", "input_src": vsrc, "observed": obs, "expected": "ok:" + gen.py_src(v)},
+                             {"kind": "roundtrip"})
+
+
 def as_dict_part(ctx: vlib.Ctx):
     """NamedTuples in the dict form (dialect option namedtuple_as_dict, or Config option of a holder dataclass): decode(encode(v)) == v, also for values whose defaulted
     items equal their defaults"""
@@ -272,6 +311,7 @@ def run(ctx: vlib.Ctx):
     ncases, nbad, nlog = tycorr.run_nd(ctx, "c01_nd", ctx.budget(16, 120), foreign=1)
     tyoracle.report_corr(ctx, "TyNtDict (pk_nd, uk_nd) vs BasicEncoder/BasicDecoder under an as_dict dialect", ncases, nbad, nlog)
     tv_part(ctx, "c01_tv", None, ctx.budget(12, 100))
+    omit_part(ctx)
 
 
 def replay(rep: dict) -> int:
